@@ -16,6 +16,7 @@ import (
 	"strings"
 	"sync"
 	"testing"
+	"time"
 
 	"github.com/pgavlin/dawn/diff"
 	"github.com/pgavlin/dawn/internal/verifhook"
@@ -84,6 +85,7 @@ type engReport struct {
 	HashAfter  string     `json:"hash_after"`
 	Targets    []string   `json:"targets"`
 	Flags      []string   `json:"flags"`
+	Notes      []string   `json:"notes"`
 }
 
 // treeHash hashes every file (path, mode bits that matter, content) under root.
@@ -124,7 +126,25 @@ func TestVerifEngineChild(t *testing.T) {
 	var hm sync.Mutex
 	crash := strings.Split(os.Getenv("VERIF_CRASH"), "|") // point|label|nth
 	seen := 0
+	// a straggler: this target is held after it was loaded until the Run call has returned (mode dry+straggler)
+	straggler := os.Getenv("VERIF_STRAGGLER")
+	release, held, finished := make(chan struct{}), make(chan struct{}), make(chan struct{})
+	var heldOnce, finOnce sync.Once
 	verifhook.SetHandler(func(point string, args ...any) {
+		if straggler != "" && len(args) > 0 && fmt.Sprint(args[0]) == straggler {
+			switch point {
+			case "run.loaded":
+				heldOnce.Do(func() { close(held) })
+				select {
+				case <-release:
+				case <-time.After(1500 * time.Millisecond):
+					// Run is itself waiting for this target (the cycle was noticed by a target that goes on to wait
+					// for its other dependencies): nothing to observe in this interleaving
+				}
+			case "run.finished":
+				finOnce.Do(func() { close(finished) })
+			}
+		}
 		if !(strings.HasPrefix(point, "eval.") || strings.HasPrefix(point, "save.") || strings.HasPrefix(point, "index.") || point == "phase") {
 			return
 		}
@@ -181,6 +201,32 @@ func TestVerifEngineChild(t *testing.T) {
 		if err := proj.GC(); err != nil {
 			rep.RunErr = err.Error()
 		}
+		rep.Ran = true
+	case "dry+straggler":
+		// a dry run whose Run call returns (with an error) while another target is still being evaluated: whatever that
+		// target does afterwards still belongs to the dry run
+		l, err := label.Parse(rawLabel)
+		if err != nil {
+			rep.RunErr = "bad label: " + err.Error()
+			break
+		}
+		rep.HashBefore = treeHash(root)
+		err = proj.Run(l, &RunOptions{DryRun: true})
+		rep.RunErr = errText(err)
+		close(release)
+		select {
+		case <-held:
+			select {
+			case <-finished:
+				rep.Notes = append(rep.Notes, "straggler-finished-after-run-returned")
+			case <-time.After(20 * time.Second):
+				rep.RunErr += " | straggler never finished"
+			}
+		default:
+			rep.Notes = append(rep.Notes, "straggler-not-held")
+		}
+		time.Sleep(100 * time.Millisecond)
+		rep.HashAfter = treeHash(root)
 		rep.Ran = true
 	case "dry+reload+run":
 		l, err := label.Parse(rawLabel)
